@@ -374,6 +374,10 @@ def effsOf : RState → List Nat
   | .rows e _ _ _ _ _ items => e :: effsOf items
   | .rowCons _ _ r rest => effsOf r ++ effsOf rest
   | .rowNil => []
+  | .errb e _ _ _ kid => e :: effsOf kid
+  | .res e _ _ _ _ _ => [e]
+  | .hooked _ inner => effsOf inner
+  | .errTok _ => []
 
 theorem GoodAttr.ext {K : Nat} {A : Nat → Prop} {st st' : St} (hi : RInv K st) (hx : Ext K A st st') :
     ∀ {a : Attr} {s : AState}, GoodAttr K st a s → (∀ e ∈ s.effs, ¬ A e) → GoodAttr K st' a s
@@ -438,6 +442,8 @@ theorem Good.ext {K : Nat} {A : Nat → Prop} {st st' : St} (hi : RInv K st) (hx
   | «show» c a b _ _ => intro t h _; cases t <;> simp only [Good] at h
   | scope sid d kid _ => intro t h _; cases t <;> simp only [Good] at h
   | forRows en sel lists row _ => intro t h _; cases t <;> simp only [Good] at h
+  | eb kid _ => intro t h _; cases t <;> simp only [Good] at h
+  | res c x => intro t h _; cases t <;> simp only [Good] at h
   | forKeyed sel lists =>
     intro t h ha
     cases t <;> simp only [Good] at h ⊢
@@ -534,6 +540,8 @@ theorem Good.serialize_eq {K : Nat} {st : St} :
   | «show» c a b _ _ => intro t h _; cases t <;> simp only [Good] at h
   | scope sid d kid _ => intro t h _; cases t <;> simp only [Good] at h
   | forRows en sel lists row _ => intro t h _; cases t <;> simp only [Good] at h
+  | eb kid _ => intro t h _; cases t <;> simp only [Good] at h
+  | res c x => intro t h _; cases t <;> simp only [Good] at h
   | forKeyed sel lists =>
     intro t h hn
     cases t <;> simp only [Good] at h
@@ -734,6 +742,8 @@ def View.core : View → Bool
   | .forKeyed _ _ => true
   | .scope _ _ _ => false
   | .forRows _ _ _ _ => false
+  | .eb _ => false
+  | .res _ _ => false
 
 structure Built (K : Nat) (st : St) (v : View) (t : RState) (st' : St) : Prop where
   inv : RInv K st'
@@ -881,6 +891,8 @@ theorem build_spec {K : Nat} : ∀ (v : View) (st : St), RInv K st → v.wf K = 
   | «show» c a b _ _ => intro st _ _ hc; simp [View.core] at hc
   | scope sid d kid _ => intro st _ _ hc; simp [View.core] at hc
   | forRows en sel lists row _ => intro st _ _ hc; simp [View.core] at hc
+  | eb kid _ => intro st _ _ hc; simp [View.core] at hc
+  | res c x => intro st _ _ hc; simp [View.core] at hc
   | forKeyed sel lists =>
     intro st hi hw _
     obtain ⟨hsel, hl⟩ := wf_forKeyed hw
@@ -1082,6 +1094,8 @@ theorem Good.map {K : Nat} {st st' : St} :
   | «show» c a b _ _ => intro t h _; cases t <;> simp only [Good] at h
   | scope sid d kid _ => intro t h _; cases t <;> simp only [Good] at h
   | forRows en sel lists row _ => intro t h _; cases t <;> simp only [Good] at h
+  | eb kid _ => intro t h _; cases t <;> simp only [Good] at h
+  | res c x => intro t h _; cases t <;> simp only [Good] at h
   | forKeyed sel lists =>
     intro t h hm
     cases t <;> simp only [Good] at h ⊢
@@ -1165,6 +1179,8 @@ theorem Good.effOK {K : Nat} {st : St} :
   | «show» c a b _ _ => intro t h _ _; cases t <;> simp only [Good] at h
   | scope sid d kid _ => intro t h _ _; cases t <;> simp only [Good] at h
   | forRows en sel lists row _ => intro t h _ _; cases t <;> simp only [Good] at h
+  | eb kid _ => intro t h _ _; cases t <;> simp only [Good] at h
+  | res c x => intro t h _ _; cases t <;> simp only [Good] at h
   | forKeyed sel lists =>
     intro t h e he
     cases t <;> simp only [Good] at h
